@@ -1067,6 +1067,11 @@ def deductive(check, tier):
     from pyvc.verify import verify
     for c in X.PROTOCOLS:
         verify(c, tier, check)
+    # what the application does between entering and leaving a window: a render leaves every restored component as it found it (a cursor
+    # hidden for the duration of a render is shown again on every path, at every terminal size including 0x0)
+    import contracts.renderos as RO
+    for c in RO.CONTRACTS:
+        verify(c, tier, check)
     check.assume("deductive layer: POSIX/CPython/blessed contracts of termios, tty, fcntl, signal, os.pipe/close/read and the capability "
                  "strings are ASSUMED (contracts/osmodel.py) and probed by the pty suite; Python runs __exit__ on every exit of a with body; "
                  "a signal delivered between two bytecodes inside __enter__/__exit__ is not modelled (DESIGN 10)")
